@@ -128,3 +128,40 @@ def record_agnostic():
                         recs.append({'op': 'agn', 'k': k, 'mark': cps(mark), 'clef': cps(clef_txt), 'l': l, 'a': a, 'o': o,
                                      'inp': cps(s), 'ok': ok, 'out': txt(ok, out), 'exc': '' if ok else out})
     return recs
+
+
+def replay_object_history(hist):
+    """one MC_PitchObj behaviour on ONE real AgnosticPitch object (and one exporter); a record per step."""
+    from kernpy.core import pitch_models as pm, transposer as tr
+    name = lambda l, a: LETTERS[l] + ('+' * a if a > 0 else '-' * (-a))  # noqa
+    recs = []
+    obj = None
+    ex = pm.HumdrumPitchExporter()
+    for h in hist:
+        r = {'op': 'objstep', 'kind': h['op'], 'l': h['l'], 'a': h['a'], 'o': h['o'], 'iv': '', 'up': False, 'ok': True, 'rname': '', 'roct': 0,
+             'val': 0, 'out': []}
+        try:
+            if h['op'] == 'new':
+                obj = pm.AgnosticPitch(name(h['l'], h['a']), h['o'])
+            elif h['op'] == 'setname':
+                obj.name = name(*h['args'])
+            elif h['op'] == 'setoct':
+                obj.octave = h['args'][0]
+            elif h['op'] == 'chroma':
+                r['val'] = int(obj.get_chroma())
+            elif h['op'] == 'export':
+                r['out'] = cps(ex.export_pitch(obj))
+            elif h['op'] == 'transpose':
+                iv, up = h['args']
+                r.update(iv=iv, up=bool(up))
+                ok, q = safe(tr.transpose_agnostics, obj, tr.IntervalsByName[iv], direction='up' if up else 'down')
+                r['ok'] = ok
+                if ok:
+                    r.update(rname=str(q.name), roct=int(q.octave))
+        except Exception as e:  # noqa  an exception of a setter / getter is an observation
+            r['ok'] = False
+            r['exc'] = type(e).__name__
+        r['name'] = str(obj.name) if obj is not None else ''
+        r['oct'] = int(obj.octave) if obj is not None else 0
+        recs.append(r)
+    return recs
